@@ -67,6 +67,6 @@ def run(tier, seed, replay=None):
                "strategies, bounds, start points) on integer-valued objectives with plateaus, ties and discontinuities (discrete: capped "
                "|a.x - t| plus a diversity step; continuous: sum of floor(|x - c| k)); quadratic with gradient for bfgs/lbfgs; each "
                "configuration run three times (run, repeat, mirror); non-trivial = >= 2 objective calls; distinct by hash")
-    ck.assumptions = ["objectives are deterministic; no early stop through on_progress; custom callbacks draw from their own seeded generator",
+    ck.assumptions = ["objectives are deterministic; early stops through on_progress are exercised for the eight first-group solvers that take the callback; custom callbacks draw from their own seeded generator",
                       "bfgs / lbfgs / powell: only 'objective is f at the returned point' and reproducibility are claimed (as the statement says)"]
     return ck.finish()
